@@ -11,6 +11,7 @@ import Model.Mdcev
 import Proofs.MdcevKkt
 import Proofs.MdcevAlgo
 import Proofs.MdcevOrder
+import Proofs.MdcevExt
 
 open Mdcev
 
@@ -206,6 +207,98 @@ theorem kkt_relation_exact (v : Variant) (scale : Option ℝ) (B lam : ℝ) (alt
       (p.2 = 0 → isOutside p.1 = false ∧ dU v scale p.1 0 ≤ lam) :=
   kktB_exact v scale B lam alts xs h
 
+/-! ### round 3: symbolic utility, thresholds, non-empty choice set, lower bound, parameter update -/
+
+/-- **numeric utility = symbolic utility**: the formula built by `utility_expression_one_alternative`
+(`utilityExpr`: the code's branches on the scale parameter and on γ is None), evaluated on the
+values of the model's sub-expressions, is the number `utility_one_alternative` returns — all four
+variants, with or without outside good, prices and scale.  (Translated, outside good: the numeric
+function returns 0 at x = 0 where the formula has log 0; excluded.) -/
+theorem expr_eq_numeric (v : Variant) (scale : Option ℝ) (a : Alt ℝ) (x : ℝ)
+    (hx : v = .translated → a.gamma = none → x ≠ 0) : symbolicU v scale a x = U v scale a x :=
+  symbolicU_eq v scale a x hx
+
+/-- an ordinary good receives exactly zero from the closed form at its own marginal utility at
+zero: the thresholds by which `identification_chosen_alternatives` orders the goods are the
+multipliers at which they enter the choice set -/
+theorem inverse_at_zero_marginal (v : Variant) (scale : Option ℝ) (a : Alt ℝ) (g : ℝ)
+    (hg : a.gamma = some g) (hok : ParamOK a) (hcap : v = .translated → Real.log g ≤ maxExpArgument) :
+    inv v scale a (dU v scale a 0) = 0 :=
+  inv_at_threshold scale a v g hg hok hcap
+
+/-- **non-negativity**: for a multiplier in the domain of the closed form and not above the
+marginal utility at zero of an ordinary good, its consumption is non-negative -/
+theorem consumption_nonneg (v : Variant) (scale : Option ℝ) (a : Alt ℝ) (g : ℝ) (hg : a.gamma = some g)
+    (hok : ParamOK a) (hcap : v = .translated → Real.log g ≤ maxExpArgument) (lam : ℝ)
+    (hl : lamOK scale a v lam) (hle : lam ≤ dU v scale a 0) : 0 ≤ inv v scale a lam :=
+  inv_nonneg_below_threshold scale a v g hg hok hcap lam hl hle
+
+/-- **the choice set is never empty** (needed to exhaust the budget): without outside good the
+first candidate always enters — whatever the sign of the marginal utilities at zero (they may all
+be negative in the non-monotonic variant, where the lower bound of the empty set is −∞) -/
+theorem choice_set_nonempty (v : Variant) (scale : Option ℝ) (budget : ℝ) (alts : List (Alt ℝ))
+    (hb : 0 < budget) (hne : alts ≠ []) (hno : ∀ a ∈ alts, isOutside a = false)
+    (hok : ∀ a ∈ alts, ParamOK a)
+    (hcap : v = .translated → ∀ a ∈ alts, ∀ g, a.gamma = some g → Real.log g ≤ maxExpArgument) :
+    (identifyChosen v scale budget alts).chosen ≠ [] :=
+  identified_nonempty v scale budget alts hb hne hno hok hcap
+
+/-- `lower_bound_dual_variable` is −∞ exactly for the empty set of the non-monotonic variant -/
+theorem lower_bound_unbounded_iff (v : Variant) (scale : Option ℝ) (chosen : List (Alt ℝ)) :
+    lowerBound v scale chosen = none ↔ v = .nonMonotonic ∧ chosen = [] :=
+  lowerBound_none_iff v scale chosen
+
+/-- above `lower_bound_dual_variable` the closed-form consumption of every chosen good is in its
+domain (where `inverse_*`, `consumption_monotone` and `consumption_nonneg` apply) -/
+theorem lower_bound_sound (v : Variant) (scale : Option ℝ) (chosen : List (Alt ℝ)) (l lam : ℝ)
+    (h : lowerBound v scale chosen = some l) (hl : l < lam) : ∀ a ∈ chosen, lamOK scale a v lam :=
+  lowerBound_sound v scale chosen l lam h hl
+
+/-- **parameters after estimation** (`estimation_results` setter →
+`_update_parameters_in_expressions`): every expression a forecast reads — baseline utilities, the
+γ that are not None, α, scale, and the variant's own μ utilities / prices — is updated (any
+number type) -/
+theorem parameters_updated {α : Type} (betas : List (String × α)) (m : Params α) :
+    forecastExprs (updateModel betas m) = (forecastExprs m).map (changeInit betas) :=
+  forecastExprs_updated betas m
+
+/-- … and an updated expression carries the estimated value in every slot whose name was
+estimated, the old value elsewhere -/
+theorem updated_slot_value {α : Type} (betas : List (String × α)) (e : PExpr α) (nv : String × α)
+    (h : nv ∈ changeInit betas e) :
+    (∃ b, betas.lookup nv.1 = some b ∧ nv.2 = b) ∨ (betas.lookup nv.1 = none ∧ nv ∈ e) :=
+  changeInit_slot betas e nv h
+
+/-- **budget exhaustion at the returned multiplier** (repaired behaviour, finding F-C18-3): when
+the bisection hands over a multiplier that met the budget criterion, the total consumption there
+is within `tolerance_budget` of the budget — after any number of passes -/
+theorem returned_multiplier_meets_budget (v : Variant) (scale : Option ℝ) (chosen : List (Alt ℝ))
+    (anyNeg : ℝ → Bool) (B tolD tolB : ℝ) (n : Nat) (lo hi l : ℝ)
+    (h : (bisLoop (totalAt v scale chosen) anyNeg B tolD tolB n
+      { lo := lo, hi := hi, go := true, negative := false }).met = some l) :
+    |totalAt v scale chosen l - B| ≤ tolB :=
+  bisLoop_met (totalAt v scale chosen) anyNeg B tolD tolB n _ (by intro l hl; cases hl) l h
+
+/-- the code as it is (midpoint of the bracket it has just updated) does NOT have that property:
+concrete witness (the negation of the clause for the unrepaired rule) -/
+theorem midpoint_after_stop_misses_budget :
+    let s' := bisStep (fun l => 4 - l) (fun _ => false) (9 / 4) 0 (1 / 2)
+      { lo := (0 : ℝ), hi := 4, go := true, negative := false }
+    s'.go = false ∧ s'.met = some 2 ∧
+      ¬ |(fun l : ℝ => 4 - l) ((s'.lo + s'.hi) / 2) - 9 / 4| ≤ 1 / 2 :=
+  Mdcev.midpoint_after_stop_misses_budget
+
+/-- **shape of a forecast**: a successful forecast gives 0 to the goods outside the identified
+choice set and the closed-form consumption at the returned multiplier to the others (any number
+type); with `consumption_nonneg` / `outside_good_consumed` this is the non-negativity clause -/
+theorem forecast_support {α} [NumOps α] (v : Variant) (scale : Option α) (budget tolD tolB : α)
+    (alts : List (Alt α)) (f : Forecast α) (h : forecast v scale budget tolD tolB alts = .ok f) :
+    f.chosen = (identifyChosen v scale budget alts).chosen.map (·.label) ∧
+    f.x = alts.map fun a => (a.label,
+      if isChosenIn (identifyChosen v scale budget alts).chosen a then inv v scale a f.lam
+      else @OfNat.ofNat α 0 Num.instOfNatOfNumOps) :=
+  forecast_ok_shape v scale budget tolD tolB alts f h
+
 /-! ### non-vacuity -/
 
 noncomputable def exAlt : Alt ℝ := ⟨7, 0, some 2, 1 / 2, 3 / 2, -1 / 4, 1 / 10⟩
@@ -223,5 +316,38 @@ example : lamOK none exAlt .nonMonotonic 1 := by simp [lamOK, exAlt, scaledEps];
 example (v : Variant) : KktPoint v none (dU v none exOut 1) (exOut, 1, 1) :=
   ⟨⟨by norm_num [exOut], by norm_num [exOut], by norm_num [exOut], by intro g hg; simp [exOut] at hg⟩,
    by simp [domain, exOut], by simp [domain, exOut], fun _ => rfl, fun h => by norm_num at h⟩
+
+/-- hypotheses of `choice_set_nonempty` / `consumption_nonneg`: a non-monotonic good whose marginal
+utility at zero is negative (ψ = 0, μ = −3, ε = 1/10) -/
+noncomputable def exNeg : Alt ℝ := ⟨7, 0, some 2, 1 / 2, 1, -3, 1 / 10⟩
+example : ParamOK exNeg :=
+  ⟨by norm_num [exNeg], by norm_num [exNeg], by norm_num [exNeg],
+   by intro g hg; simp only [exNeg, Option.some.injEq] at hg; rw [← hg]; norm_num⟩
+example : dU .nonMonotonic none exNeg 0 < 0 := by
+  simp [dU, exNeg, scaledEps]; norm_num
+example : (identifyChosen .nonMonotonic none 3 [exNeg]).chosen ≠ [] :=
+  choice_set_nonempty .nonMonotonic none 3 [exNeg] (by norm_num) (by simp)
+    (by intro a ha; simp at ha; subst ha; simp [isOutside, exNeg])
+    (by intro a ha; simp at ha; subst ha
+        exact ⟨by norm_num [exNeg], by norm_num [exNeg], by norm_num [exNeg],
+          by intro g hg; simp only [exNeg, Option.some.injEq] at hg; rw [← hg]; norm_num⟩)
+    (by intro h; cases h)
+example : lamOK none exNeg .nonMonotonic (-5 / 2) := by simp [lamOK, exNeg, scaledEps]; norm_num
+example : lowerBound .nonMonotonic none [exNeg] = some (-3 + 1 / 10) := by
+  rw [lowerBound_nm]; simp [nmStep, exNeg, scaledEps]
+example : symbolicU .generalized (some 2) exAlt 1 = U .generalized (some 2) exAlt 1 :=
+  expr_eq_numeric _ _ _ _ (by intro h; cases h)
+/-- `returned_multiplier_meets_budget`: the hypothesis is met by the witness above -/
+example : (bisLoop (fun l : ℝ => 4 - l) (fun _ => false) (9 / 4) 0 (1 / 2) 1
+    { lo := (0 : ℝ), hi := 4, go := true, negative := false }).met = some 2 := by
+  simp only [bisLoop]
+  exact Mdcev.midpoint_after_stop_misses_budget.2.1
+/-- `forecast_support`: a forecast that succeeds (one good, the bracket is not inverted, no negative consumption met) -/
+example : ∃ f, finish .gammaProfile (none : Option ℝ) [exAlt] [exAlt] { lo := 1, hi := 2, go := false, negative := false } = .ok f :=
+  ⟨_, by simp only [finish, Bool.false_eq_true, if_false]; rfl⟩
+example : changeInit [("b", (2 : Int))] [("b", 0), ("c", 5)] = [("b", 2), ("c", 5)] := by decide
+example : forecastExprs (updateModel [("m", (4 : Int))]
+    ⟨.nonMonotonic, [(1, [("b", 0)])], [(1, none)], some [(1, [("a", 1)])], none, none, [(1, [("m", 0)])], none⟩)
+    = [[("b", 0)], [("a", 1)], [("m", 4)]] := by decide
 
 end C18
